@@ -87,6 +87,15 @@ template <int F> void flavour_case(Rng& rng, std::uint64_t idx)
     {
         ::unlink(fname);
         chk_t cur = initial;
+        if (mask & 1)
+        {
+            // boundary 0 as an interruption point as well: the initial checkpoint itself goes through text before the
+            // first iteration (for the default flavours it has not seen an integrator yet)
+            std::istringstream in0(text_of(initial));
+            cur = chk_t(in0);
+            if (in0.fail()) { viol(std::string("reload-of-initial-checkpoint-failed:") + Fl::name(), J(info).u("mask", mask)); continue; }
+            count("initial_checkpoints_reloaded_before_the_first_iteration");
+        }
         std::size_t pos = 0;
         bool stopped = false;
         std::size_t cuts = 0;
